@@ -376,10 +376,16 @@ def step (line impl : String) : String × Verdict :=
     | some T, some i, some a, some j, some b =>
       let x : Q A Nat := ⟨a, i⟩
       let y : Q A Nat := ⟨b, j⟩
-      let out := cmpGroup R T x y ++ "|" ++ cmpGroup R T y x
+      -- third group: the value compared with ITSELF, both operands one object (`x == x`, `x <= x`, ...)
+      let out := cmpGroup R T x y ++ "|" ++ cmpGroup R T y x ++ "|" ++ cmpGroup R T x x
       let v : Verdict :=
         match impl.splitOn "|" with
-        | [g1, g2] =>
+        | [g1, g2, g3] =>
+          let vSelf : Verdict := match parseCmp g3 with
+            | some o3 => check (o3 == Oracle.CmpObs.ofPcmp (R.beq a a) (R.pcmp a a))
+                "comparing a value with itself is not the amount type's own comparison of the amount with itself"
+            | none => .skip "unparsed impl output"
+          vSelf.and <|
           match parseCmp g1, parseCmp g2 with
           | some o1, some o2 =>
             if T.kind == .withRef then
